@@ -561,6 +561,13 @@ func (v *View) Set(databag DataBag, request string, value interface{}) error {
 		return badRequestErrorFrom(v, "set", request, err.Error())
 	}
 
+	// placeholders left open by the request are only filled in now: order the
+	// expanded paths again so that less nested paths are written before more
+	// nested ones, whatever the placeholder names sorted like
+	sort.SliceStable(expandedMatches, func(x, y int) bool {
+		return strings.Count(expandedMatches[x].storagePath, ".") < strings.Count(expandedMatches[y].storagePath, ".")
+	})
+
 	for _, match := range expandedMatches {
 		if err := databag.Set(match.storagePath, match.value); err != nil {
 			return err
